@@ -29,11 +29,11 @@ MC_FAMS = {
                           ("MCResC07", dict(NProvs=3, ProvTypes="{1, 2, 3}", HolderTypes="{9, 10}"))],
     ("C08", "quick"): [("MCResC08", dict(NProvs=2, ProvTypes="{2, 3, 4, 5, 8}", HolderTypes=H3, MaxPts=2))],
     ("C08", "thorough"): [("MCResC08", dict(NProvs=2, ProvTypes="{2, 3, 4, 5, 6, 8, 14}", HolderTypes=H3, MaxPts=2)),
-                          ("MCResC08", dict(NProvs=3, ProvTypes="{3, 4, 5, 8}", HolderTypes="{10, 11}", MaxPts=2)),
+                          ("MCResC08", dict(NProvs=3, ProvTypes="{3, 4, 5}", HolderTypes="{10, 11}", MaxPts=2)),
                           ("MCResC08", dict(NProvs=2, ProvTypes="{3, 5, 8}", HolderTypes="{10, 11}", MaxPts=3))],
     ("C10", "quick"): [("MCResC08", dict(NProvs=2, ProvTypes="{2, 3, 4, 5}", HolderTypes=H3, MaxPts=2)),
                        ("MCResC06", dict(NProvs=2, ProvTypes="{2, 4, 7, 13}", HolderTypes=H3))],
-    ("C10", "thorough"): [("MCResC08", dict(NProvs=3, ProvTypes="{3, 4, 5, 8}", HolderTypes="{10, 11}", MaxPts=2)),
+    ("C10", "thorough"): [("MCResC08", dict(NProvs=3, ProvTypes="{3, 4, 5}", HolderTypes="{10, 11}", MaxPts=2)),
                           ("MCResC06", dict(NProvs=3, ProvTypes="{2, 4, 7, 13}", HolderTypes=H3)),
                           ("MCResC07", dict(NProvs=2, ProvTypes="{1, 2, 3, 4, 5}", HolderTypes=H3))],
 }
